@@ -119,11 +119,28 @@ def _normalise_tail(node):
             if isinstance(x, ast.Name) and isinstance(x.ctx, ast.Store):
                 stored_later[x.id] = stored_later.get(x.id, 0) + 1
     env, out = {}, []
-    for st in tail:
+    for k_, st in enumerate(tail):
         if isinstance(st, ast.Assign) and len(st.targets) == 1 and isinstance(st.targets[0], ast.Name) and stored_later.get(st.targets[0].id) == 1 \
                 and not any(isinstance(x, (ast.Call, ast.Await, ast.Yield, ast.NamedExpr)) for x in ast.walk(st.value)):
             env[st.targets[0].id] = inline(st.value, env)
             continue
+        # x = g(name)  read only in the returns that follow, with nothing but call-free tests in between: the call where it is returned
+        if isinstance(st, ast.Assign) and len(st.targets) == 1 and isinstance(st.targets[0], ast.Name) and stored_later.get(st.targets[0].id) == 1 \
+                and isinstance(st.value, ast.Call) and isinstance(st.value.func, ast.Name) and all(isinstance(a_, ast.Name) for a_ in st.value.args) and not st.value.keywords:
+            rest = tail[k_ + 1:]
+            nm_ = st.targets[0].id
+            quiet = True
+            for y in rest:
+                for x in ast.walk(y):
+                    if isinstance(x, ast.Call):
+                        quiet = False
+                    if isinstance(x, ast.Name) and isinstance(x.ctx, ast.Store) and x.id in [a_.id for a_ in st.value.args]:
+                        quiet = False
+            reads = [x for y in rest for x in ast.walk(y) if isinstance(x, ast.Name) and x.id == nm_]
+            in_returns = {id(x) for y in rest for r_ in ast.walk(y) if isinstance(r_, ast.Return) for x in ast.walk(r_)}
+            if quiet and reads and all(id(x) in in_returns for x in reads):
+                env[nm_] = st.value
+                continue
         if env:
             st = _copy.deepcopy(st)
             for fld, val in list(ast.iter_fields(st)):
@@ -137,6 +154,18 @@ def _normalise_tail(node):
                         setattr(sub, fld, inline(val, env))
         out.append(st)
     tail = out
+    # if c: return (a, b, m, s)   followed by   return (a', b', m, s)      (the same m, s: one record, two successors)
+    # ->  return (a if c else a', b if c else b', m, s)      - brought to the named if/else form below
+    if len(tail) >= 2 and isinstance(tail[-1], ast.Return) and isinstance(tail[-1].value, ast.Tuple) and isinstance(tail[-2], ast.If) and not tail[-2].orelse \
+            and len(tail[-2].body) == 1 and isinstance(tail[-2].body[0], ast.Return) and isinstance(tail[-2].body[0].value, ast.Tuple) \
+            and len(tail[-1].value.elts) == len(tail[-2].body[0].value.elts) >= 3 \
+            and [U(x) for x in tail[-1].value.elts[2:]] == [U(x) for x in tail[-2].body[0].value.elts[2:]] \
+            and not any(isinstance(x, (ast.Call, ast.NamedExpr)) for x in ast.walk(tail[-2].test)):
+        t_, e_ = tail[-2].body[0].value.elts, tail[-1].value.elts
+        merged = ast.Return(value=ast.Tuple(elts=[ast.IfExp(test=_copy.deepcopy(tail[-2].test), body=t_[0], orelse=e_[0]),
+                                                  ast.IfExp(test=_copy.deepcopy(tail[-2].test), body=t_[1], orelse=e_[1])] + list(e_[2:]), ctx=ast.Load()),
+                            lineno=tail[-1].lineno, col_offset=0)
+        tail = tail[:-2] + [merged]
     if tail and isinstance(tail[-1], ast.Return) and isinstance(tail[-1].value, ast.Tuple) and len(tail[-1].value.elts) >= 2:
         r = tail[-1]
         a, b = r.value.elts[0], r.value.elts[1]
